@@ -940,3 +940,93 @@ def tspat_fn(text, features):
 
 def tspat_unit(text, features):
     return "use vstd::prelude::*;\nverus! {\n" + TSPAT_MODEL + tspat_fn(text, features) + vlib.verus_canary("canary_tspat", "x: u64", []) + "\n} // verus!\nfn main() {}\n"
+
+
+# ---- the dispatch of pattern_matches_value_with_semantics over the pattern kinds ------------------------------------------------------------------
+DISPATCH_MODEL = """
+pub struct PatternTuple { pub id: u64 }
+pub struct PatternArray { pub id: u64 }
+pub struct PatternTupleStruct { pub id: u64 }
+pub struct Var { pub id: u64 }
+pub enum Expression { Var(Var), Other(u64) }
+pub enum Pattern { Wildcard, Tuple(PatternTuple), Array(PatternArray), Expression(Expression), TupleStruct(PatternTupleStruct), Other(u64) }
+pub struct Value { pub id: u64 }
+pub struct MechError { pub id: u64 }
+pub struct Interpreter { pub id: u64 }
+#[derive(Clone, Copy)]
+pub struct PatternMatchSemantics { pub id: u64 }
+pub struct Environment { pub st: Ghost<int> }
+pub uninterp spec fn detach(v: Value) -> Value;                                                                   // deep_detach_value
+// what each arm computes (its own contract: C16.verus.pattern_matches_value.*): result (None = error) and the environment it leaves
+pub uninterp spec fn arm_tuple(t: PatternTuple, v: Value, sem: u64, st: int) -> (Option<bool>, int);
+pub uninterp spec fn arm_array(a: PatternArray, v: Value, sem: u64, st: int) -> (Option<bool>, int);
+pub uninterp spec fn arm_expr(e: Expression, v: Value, sem: u64, st: int) -> (Option<bool>, int);
+pub uninterp spec fn arm_ts(t: PatternTupleStruct, v: Value, sem: u64, st: int) -> (Option<bool>, int);
+pub open spec fn outcome(r: Result<bool, MechError>) -> Option<bool> { match r { Ok(b) => Some(b), Err(_) => None } }
+#[verifier::external_body]
+pub fn deep_detach_value(v: &Value) -> (r: Value) ensures r == detach(*v), { unimplemented!() }
+#[verifier::external_body]
+pub fn feature_error() -> (e: MechError) { unimplemented!() }
+#[verifier::external_body]
+pub fn tuple_arm(t: &PatternTuple, v: Value, env: &mut Environment, p: &Interpreter, semantics: PatternMatchSemantics) -> (r: Result<bool, MechError>)
+  ensures (outcome(r), final(env).st@) == arm_tuple(*t, v, semantics.id, old(env).st@), { unimplemented!() }
+#[verifier::external_body]
+pub fn array_arm(a: &PatternArray, v: Value, env: &mut Environment, p: &Interpreter, semantics: PatternMatchSemantics) -> (r: Result<bool, MechError>)
+  ensures (outcome(r), final(env).st@) == arm_array(*a, v, semantics.id, old(env).st@), { unimplemented!() }
+// the arm for `Expression::Var(var)` is the variable case of the expression arm
+#[verifier::external_body]
+pub fn var_arm(var: &Var, v: Value, env: &mut Environment, p: &Interpreter, semantics: PatternMatchSemantics) -> (r: Result<bool, MechError>)
+  ensures (outcome(r), final(env).st@) == arm_expr(Expression::Var(*var), v, semantics.id, old(env).st@), { unimplemented!() }
+#[verifier::external_body]
+pub fn expr_arm(e: &Expression, v: Value, env: &mut Environment, p: &Interpreter, semantics: PatternMatchSemantics) -> (r: Result<bool, MechError>)
+  ensures (outcome(r), final(env).st@) == arm_expr(*e, v, semantics.id, old(env).st@), { unimplemented!() }
+#[verifier::external_body]
+pub fn tuple_struct_arm(t: &PatternTupleStruct, v: Value, env: &mut Environment, p: &Interpreter, semantics: PatternMatchSemantics) -> (r: Result<bool, MechError>)
+  ensures (outcome(r), final(env).st@) == arm_ts(*t, v, semantics.id, old(env).st@), { unimplemented!() }
+// ---- THE CONTRACT: the wildcard matches anything and binds nothing; every other pattern is matched, against the DETACHED value, by the arm of its kind; a pattern of
+// a kind that is not enabled is an error
+pub open spec fn matches(pattern: Pattern, value: Value, sem: u64, st: int) -> (Option<bool>, int) {
+  let v = detach(value);
+  match pattern {
+    Pattern::Wildcard => (Some(true), st),
+    Pattern::Tuple(t) => arm_tuple(t, v, sem, st),
+    Pattern::Array(a) => arm_array(a, v, sem, st),
+    Pattern::Expression(e) => arm_expr(e, v, sem, st),
+    Pattern::TupleStruct(t) => arm_ts(t, v, sem, st),
+    Pattern::Other(_) => (None, st),
+  }
+}
+"""
+
+
+def dispatch_fn(text, features):
+    """`pattern_matches_value_with_semantics` with each arm's block replaced by a call of that arm's stand-in (`tuple_arm`, `array_arm`, `var_arm`, `expr_arm`,
+    `tuple_struct_arm`: the arms are under contract on their own), the catch-all error arm's constructor -> `feature_error()`; cfg attributes evaluated"""
+    sig, body = extract_fn(text, "pattern_matches_value_with_semantics")
+    b = apply_cfg(re.sub(r"//[^\n]*", "", body).replace("\r", ""), features).strip()[1:-1]
+    arms = [(r"Pattern::Tuple\(\s*(\w+)\s*\)", "tuple_arm"), (r"Pattern::Array\(\s*(\w+)\s*\)", "array_arm"),
+            (r"Pattern::Expression\(\s*Expression::Var\(\s*(\w+)\s*\)\s*\)", "var_arm"), (r"Pattern::Expression\(\s*(\w+)\s*\)", "expr_arm"),
+            (r"Pattern::TupleStruct\(\s*(\w+)\s*\)", "tuple_struct_arm")]
+    seen = 0
+    for rx, fn in arms:
+        m = re.search(rx + r"\s*=>\s*\{", b)
+        if not m:
+            if fn == "var_arm":
+                continue            # the general expression arm subsumes it
+            raise AnchorLost("pattern_matches_value_with_semantics: no arm for " + rx)
+        e = match_brace(b, m.end() - 1)
+        b = b[:m.end()] + " return %s(%s, detached_value, env, p, semantics); }" % (fn, m.group(1)) + b[e:]
+        seen += 1
+    m = re.search(r"(\w+)\s*=>\s*Err\(\s*MechError::new\(\s*FeatureNotEnabledError", b)
+    if not m:
+        raise AnchorLost("pattern_matches_value_with_semantics: the catch-all error arm not found")
+    mm = b.rindex("}")            # end of the match
+    b = b[:m.start()] + "%s => Err(feature_error()),\n  " % m.group(1) + b[mm:]
+    if re.search(r"\b(MechError::new|format!|borrow|iter)\b", b):
+        raise AnchorLost("pattern_matches_value_with_semantics: statements outside the arms that the rules do not cover")
+    return ("fn pattern_matches_value_with_semantics(pattern: &Pattern, value: &Value, env: &mut Environment, p: &Interpreter, semantics: PatternMatchSemantics) -> (res: Result<bool, MechError>)\n"
+            "  ensures (outcome(res), final(env).st@) == matches(*pattern, *value, semantics.id, old(env).st@),\n{\n" + b + "\n}\n")
+
+
+def dispatch_unit(text, features):
+    return "use vstd::prelude::*;\nverus! {\n" + DISPATCH_MODEL + dispatch_fn(text, features) + vlib.verus_canary("canary_dispatch", "x: u64", []) + "\n} // verus!\nfn main() {}\n"
